@@ -263,9 +263,16 @@ def warm_vs_fresh(seed, npairs, nperm):
         return fresh[(a, vi)]
     disagreements, evals, samples = [], 0, []
     for k in range(npairs):
-        a = rnd.choice(ACTIONS)
-        vi = rnd.randrange(len(pool))
-        hist = [(rnd.choice(ACTIONS), rnd.randrange(len(pool))) for _ in range(rnd.randint(1, 8))]
+        names_ = [n for n, _ in pool]
+        ambiguous = [names_.index(n) for n in ("Hybrid", "TwinMap", "TwinObj", "nd0", "nd1", "nd1b", "UMap", "USeq", "deque", "range", "mappingproxy")]
+        stores = ["dict_set", "list_append", "attr_set", "from_base", "update", "reset_list"]
+        a = rnd.choice(stores) if rnd.random() < 0.6 else rnd.choice(ACTIONS)
+        vi = rnd.choice(ambiguous) if rnd.random() < 0.55 else rnd.randrange(len(pool))
+        hist = [(rnd.choice(ACTIONS), rnd.randrange(len(pool))) for _ in range(rnd.randint(1, 6))]
+        # histories that make the same backend convert a plain list and a plain dict first
+        hist.insert(rnd.randrange(len(hist) + 1), (rnd.choice(stores[:5]), names_.index(rnd.choice(["list", "tuple", "list2"]))))
+        if rnd.random() < 0.6:
+            hist.insert(rnd.randrange(len(hist) + 1), (rnd.choice(stores[:5]), names_.index(rnd.choice(["dict", "dict2", "OrderedDict"]))))
         # bias: warm up with a value of the same type but another shape / a same-named type
         twins = {"nd0": ["nd1", "nd1b"], "nd1": ["nd0"], "nd1b": ["nd0"], "TwinMap": ["TwinObj"], "TwinObj": ["TwinMap"],
                  "dict": ["dict2"], "list": ["list2"], "str": ["str2"]}
